@@ -6,6 +6,8 @@
 
 package jsonflags
 
+import "reflect"
+
 // Ghost helpers used by the //@ contract clauses in the zz_verif_*.go files.
 // They are ordinary Go so that contract expressions are type-checked by the
 // Go type checker and can be executed when a counterexample is replayed.
@@ -78,6 +80,11 @@ func sameSlice[T any](a, b []T) bool {
 	}
 	return cap(a) == 0 || &a[:1][0] == &b[:1][0]
 }
+
+// sameValue(a, b): a and b are the same value, for types that Go cannot compare
+// with == (structs that hold slices). The verifier compares slice fields as
+// headers; when executed the comparison is by content (weaker).
+func sameValue[T any](a, b T) bool { return reflect.DeepEqual(a, b) }
 
 // unchanged(s), in a postcondition or invariant: the array backing s holds what
 // it held on entry. (Executed: trivially true; the contents are compared through
